@@ -198,6 +198,10 @@ class PathEval:
 
     PURE_CALLS = ()
 
+    def allow(self, dec, cond, value):
+        """whether the path extension dec + {cond: value} is explored (all of them in the polynomial domain)"""
+        return True
+
     def run(self):
         """list of paths: dict {"stores": {(param, byte offset): RF}, "conds": [(text, bool)]}"""
         results = []
@@ -213,6 +217,8 @@ class PathEval:
                 results.append(self._run_path(dec))
             except _NeedDecision as nd:
                 for b in (True, False):
+                    if not self.allow(dec, nd.cond, b):
+                        continue
                     d2 = dict(dec)
                     d2[nd.cond] = b
                     pending.append(d2)
@@ -283,6 +289,10 @@ class PathEval:
                                            or cal.startswith("@llvm.experimental.noalias") or cal.startswith("@llvm.fabs") or cal.startswith("@llvm.dbg")
                                            or cal.lstrip("@").split(".f64")[0].split(".f32")[0] in self.PURE_CALLS):
                         raise Unsupported("call of %s (not inlined; its memory effects are outside the polynomial domain)" % (cal or "an indirect callee"))
+                elif op == "load":
+                    # loads are evaluated at their program point: a later store to the same cell must not be visible to them
+                    if ins.res is not None and re.match(r"^load (?:volatile )?(double|float)[, ]", ins.text):
+                        self._value(ins.res, vals)
                 else:
                     continue   # pure instructions are evaluated on demand
             if nxt is None:
